@@ -19,6 +19,9 @@ type TableSpec struct {
 	Datatable  string
 	Nested     bool
 	Rows, Cols int
+	// Ragged: 0 every row has Cols cells; 1 the last three rows have two more; 2 the first
+	// three rows have two more (the column count is the maximum over ALL rows)
+	Ragged int
 	ColSpan    bool // express the last two columns with colspan=2
 	RowSpan    bool // first tr carries rowspan=2 (counts as two rows)
 	Header     int  // 0 none,1 caption text,2 caption empty,3 thead,4 tfoot,5 colgroup,6 col,7 th text,8 th empty, 9 empty th then th with text
@@ -80,6 +83,9 @@ func (s TableSpec) HTML(cellText func() string) string {
 		}
 		sb.WriteString(tr + ">")
 		cols := s.Cols
+		if (s.Ragged == 1 && i >= rows-3) || (s.Ragged == 2 && i < 3) {
+			cols += 2
+		}
 		for j := 0; j < cols; j++ {
 			first := i == 0 && j == 0
 			tag, a := "td", ""
@@ -183,6 +189,14 @@ func randTableSpec(r *Rng) TableSpec {
 	}
 	if s.DescRole == 4 || s.DescRole == 6 || s.DescRole == 7 {
 		s.Nested = true // these roles sit on or inside a nested table
+	}
+	if r.Chance(20) {
+		s.Ragged = 1 + r.Intn(2)
+		if r.Chance(50) {
+			// long and narrow, the widest rows beyond (or before) the 20th
+			s.Rows = []int{21, 23, 25, 40}[r.Intn(4)]
+			s.Cols = 1 + r.Intn(2)
+		}
 	}
 	return s
 }
